@@ -61,7 +61,7 @@ SCHEDULES = [
     {"times": [1.0, 2.0, 4.0], "start": 0.5},
 ]
 BASE = {"photon": "f64", "charge": "array", "pixel": "f64", "signal": "f64", "image": "u16", "scene": "no",
-        "data": "none", "debug": "off"}
+        "data": "none", "debug": "off", "alias": "no"}
 AXES = {
     "photon": ["none", "f64", "f32", "f16", "wl2", "wl3"],
     "charge": ["none", "array", "clusters"],
@@ -71,10 +71,14 @@ AXES = {
     "scene": ["no", "yes"],
     "data": ["none", "flat", "nested"],
     "debug": ["off", "on", "const"],
+    "alias": ["no", "yes"],       # yes: the pixel / signal / image writers re-use one buffer per bucket (see exp_util._assign)
 }
 FLOATS = {"f64": "float64", "f32": "float32", "f16": "float16"}
 UINTS = {"u8": "uint8", "u16": "uint16", "u32": "uint32", "u64": "uint64"}
-GROUP_OF = {"m_scene": "scene_generation", "m_photon": "photon_collection", "noop": "phasing",
+IDLE = {"m_photon_idle": "photon_collection", "m_charge_idle": "charge_generation", "m_pixel_idle": "charge_collection",
+        "m_signal_idle": "charge_measurement", "m_image_idle": "readout_electronics"}
+GROUP_OF = {**IDLE, "m_charge2": "charge_generation",
+            "m_scene": "scene_generation", "m_photon": "photon_collection", "noop": "phasing",
             "m_charge": "charge_generation", "m_pixel": "charge_collection", "m_pixel_x2": "charge_transfer",
             "m_signal": "charge_measurement", "m_signal_same": "signal_transfer", "m_image": "readout_electronics",
             "m_data": "data_processing", "last": "data_processing"}
@@ -104,7 +108,7 @@ def enumerate_cases(tier, seed):
                 for nd in (False, True):
                     cases.append({"fam": "P", "cfg": cfg, "sched": si, "nd": nd})
     empty = {"photon": "none", "charge": "none", "pixel": "none", "signal": "none", "image": "none", "scene": "no",
-             "data": "none", "debug": "off"}
+             "data": "none", "debug": "off", "alias": "no"}
     for cfg in _single_bucket_cfgs(empty):
         for si in range(len(SCHEDULES)):
             for nd in (False, True):
@@ -167,31 +171,48 @@ def build_pipeline(cfg, salt, track=False):
     track: the writers measure which buckets they change (only in the debug run: it reads the charge bucket)"""
     debug = cfg["debug"] != "off"
     const = cfg["debug"] == "const"
+    reuse = cfg.get("alias", "no") == "yes"
     g = {}
 
     def add(group, name, spec):
         g.setdefault(group, []).append(("vp.exp_util.write", name, {"spec": spec, "salt": salt, "track": track}))
+
+    def idle(group, name):
+        # debug pipelines: a model that changes nothing, listed AFTER a writer of the same group (its record must be
+        # empty: a comparison base taken once per group, or never refreshed, would attribute the writer's bucket to it)
+        if debug:
+            g.setdefault(group, []).append(("vp.exp_util.tick", name, {}))
 
     if cfg["scene"] == "yes":
         add("scene_generation", "m_scene", {"scene": True})
     ph = _photon_spec(cfg["photon"], const)
     if ph is not None:
         add("photon_collection", "m_photon", {"photon": ph})
+        idle("photon_collection", "m_photon_idle")
     if debug:
         g.setdefault("phasing", []).append(("vp.exp_util.tick", "noop", {}))
     if cfg["charge"] != "none":
         add("charge_generation", "m_charge", {"charge": {"how": cfg["charge"], "const": const}})
+        idle("charge_generation", "m_charge_idle")
+        if debug and cfg["charge"] == "array":
+            # a second writer of the same bucket in the same group: the record of the first must keep the first's value
+            add("charge_generation", "m_charge2", {"charge": {"how": "array", "const": const}})
     if cfg["pixel"] != "none":
-        add("charge_collection", "m_pixel", {"pixel": {"dtype": FLOATS[cfg["pixel"]], "acc": True, "const": const}})
+        add("charge_collection", "m_pixel", {"pixel": {"dtype": FLOATS[cfg["pixel"]], "acc": True, "const": const,
+                                                       "reuse": reuse}})
+        idle("charge_collection", "m_pixel_idle")
         if debug:
             add("charge_transfer", "m_pixel_x2", {"pixel": {"dtype": FLOATS[cfg["pixel"]], "const": const, "mul": 2}})
     if cfg["signal"] != "none":
-        add("charge_measurement", "m_signal", {"signal": {"dtype": FLOATS[cfg["signal"]], "const": const}})
+        add("charge_measurement", "m_signal", {"signal": {"dtype": FLOATS[cfg["signal"]], "const": const,
+                                                         "reuse": reuse}})
+        idle("charge_measurement", "m_signal_idle")
         if debug:
             add("signal_transfer", "m_signal_same", {"signal": {"dtype": FLOATS[cfg["signal"]], "const": const}})
     im = _image_spec(cfg["image"], const)
     if im is not None:
-        add("readout_electronics", "m_image", {"image": im})
+        add("readout_electronics", "m_image", {"image": dict(im, reuse=reuse)})
+        idle("readout_electronics", "m_image_idle")
     if cfg["data"] != "none":
         add("data_processing", "m_data", {"data": cfg["data"]})
     # without debug the observer does not read the charge bucket (a read refreshes Charge's cache); the expected
@@ -204,7 +225,8 @@ def expected_charge(cfg, step, salt):
     """what the charge writer put into the (emptied) charge bucket in this step"""
     if cfg["charge"] == "none":
         return np.zeros((ROWS, COLS))
-    return U.value_for("charge", 0 if cfg["debug"] == "const" else step, (ROWS, COLS), salt)
+    v = U.value_for("charge", 0 if cfg["debug"] == "const" else step, (ROWS, COLS), salt)
+    return 2 * v if (cfg["debug"] != "off" and cfg["charge"] == "array") else v      # m_charge + m_charge2
 
 
 def run_once(cfg, sched, nd, hier, debug, salt):
@@ -387,7 +409,7 @@ def check_debug(res, changes, snaps, cfg, sched, nd, bad):
     for name, step, changed, post in changes:
         models[(name, step)] = (changed, post)
     for step in range(n):
-        for name in ("noop", "last"):               # these two probes change nothing
+        for name in ("noop", "last") + tuple(IDLE):   # these probes change nothing
             models[(name, step)] = ([], None)
     for (name, step), (changed, post) in sorted(models.items()):
         path = f"time_idx_{step}/{GROUP_OF[name]}/{name}"
